@@ -37,5 +37,12 @@ REGISTRY["C02"] = dict(
          "re-opened index is exactly old or new, is writable, and that the next commit leaves no orphaned segment files.",
     note=_BOUNDED + "  OS model: rename atomic, process death closes descriptors, no write re-ordering.")
 
+REGISTRY["C03"] = dict(
+    modules=["harness.c03_snapshot"],
+    technique="CrossHair symbolic injection points: reader open/probe/refresh steps injected at symbolic storage-operation boundaries of a real 5-commit writer script",
+    text="The tick numbers at which a reader opens, probes (all read API families, up_to_date) and refreshes are symbolic; the real writer, "
+         "reader, TOC and clean-up code runs once per feasible (k1,k2[,k3]); every path must show the generation's recorded state.",
+    note=_BOUNDED + "  A reader step is atomic at a writer's storage-operation boundary (<=3 context switches); one process.")
+
 _PENDING = "check not built yet in this round (work in progress; see DESIGN.md section 4)"
 NOT_APPLICABLE = {("C%02d" % i): _PENDING for i in range(1, 21) if ("C%02d" % i) not in REGISTRY}
